@@ -5,6 +5,10 @@ From Verif Require Import C18.Model C18.Spec C18.Equiv C18.StrOrder C18.Proofs C
 Import ListNotations.
 Open Scope string_scope.
 
+(* the table the code has after its own init() is the model's table *)
+Lemma runtime_table_is_RT : runtime_table = RT.
+Proof. apply rules_eqb_eq. exact gen_runtime_dump_is_model_init. Qed.
+
 (* all node lists, ALL tag lists; duplicate keys resolved as Tags.Find does (first match) *)
 Lemma way_polygon_RT_bool (nodes : list Z) (ts : tags) :
   way_polygon RT nodes ts = Val (spec_polygonb nodes (fun k => find k ts)).
@@ -71,3 +75,35 @@ Proof.
   unfold spec_relationb. rewrite (lookup_find ts "type" H).
   exact (relation_polygon_iff ts H).
 Qed.
+
+(* ---- the literal published rule ---- *)
+
+(* outside the class "a listed key present with an empty value" the code IS the literal rule *)
+Lemma way_polygon_RT_published (nodes : list Z) (ts : tags) :
+  NoDup (keys ts) -> no_empty_listed ts ->
+  exists b, way_polygon RT nodes ts = Val b /\ (b = true <-> published_polygon nodes ts).
+Proof.
+  intros Hnd Hne. destruct (way_polygon_RT_spec nodes ts Hnd) as [b [Hb Hiff]].
+  exists b. split; [exact Hb|]. rewrite Hiff. unfold spec_polygon, published_polygon.
+  rewrite (published_area_iff_spec_area ts Hne). reflexivity.
+Qed.
+
+(* inside the class it is not: building="" on a closed ring is an area by the literal rule, the
+   code says no *)
+Lemma empty_value_refuted :
+  exists nodes ts,
+    NoDup (keys ts) /\ way_polygon RT nodes ts = Val false /\ published_polygon nodes ts.
+Proof.
+  exists [100; 101; 102; 100]%Z, [("building", "")].
+  split; [repeat constructor; cbn; intuition|]. split; [vm_compute; reflexivity|].
+  split.
+  - exists 100%Z, [101; 102]%Z. split; [reflexivity|apply le_n].
+  - split; [intros [H|[]]; discriminate H|].
+    right. exists "building", All, [], "". split; [left; reflexivity|].
+    split; [left; reflexivity|]. split; [discriminate|exact I].
+Qed.
+
+Lemma published_oracle_is_spec (nodes : list Z) (ts : tags) :
+  nodupb (keys ts) = true ->
+  (published_polygonb nodes (lookup_opt ts) = true <-> published_polygon nodes ts).
+Proof. intros H. apply nodupb_NoDup in H. exact (published_polygonb_iff nodes ts H). Qed.
